@@ -153,6 +153,11 @@ def broken_doc(D):
     lines = []
     if D.bool():
         lines += ['Some prose first.', '']
+    # a line that reads like a google tag but whose "body" is not indented under it is no google block: style auto has to
+    # treat the docstring like freeform does
+    flat_header = D.chance(1, 3)
+    if flat_header:
+        lines += [D.choice(['Example:', 'Examples:', 'Doctest:'])]
     for _ in range(D.int(0, 2)):
         lines += D.choice(good) + ([''] if D.bool() else [])
     lines += bad
@@ -161,7 +166,7 @@ def broken_doc(D):
     for _ in range(D.int(0, 2)):
         lines += D.choice(good)
     text = '\n'.join(ind + ln if ln else ln for ln in lines) + D.choice(['', '\n'])
-    return {'text': text, 'layout': layout, 'bad': '\n'.join(bad), 'code': code}
+    return {'text': text, 'layout': layout, 'bad': '\n'.join(bad), 'code': code, 'flat_header': flat_header}
 
 
 def is_broken_python(code):
@@ -188,7 +193,7 @@ def has_prompt(text):
     return any(ln.strip().startswith('>>>') for ln in text.split('\n'))
 
 
-def oracle(text, styles=('freeform', 'google', 'auto'), must_error=None):
+def oracle(text, styles=('freeform', 'google', 'auto'), must_error=None, auto_like_freeform=False):
     """Raises Violation; returns ('error' | 'parts' | 'noparts').  must_error: the statement (by construction not Python)
     that makes this text one with broken doctest syntax"""
     from xdoctest import core, exceptions, parser
@@ -231,7 +236,7 @@ def oracle(text, styles=('freeform', 'google', 'auto'), must_error=None):
             key = 'examples:escape:{}:{}'.format(type(ex).__name__, (v.key.split(':', 2)[-1] if v else '?'))
             raise Violation(key, 'parse_docstr_examples(style={!r}) raised {}: {!r}\ntext={!r}'.format(
                 style, type(ex).__name__, str(ex)[:200], text), detail=v.detail if v else None)
-        if style == 'freeform' and outcome == 'error':
+        if (style == 'freeform' or (style == 'auto' and auto_like_freeform)) and outcome == 'error':
             if exs:
                 raise Violation('examples:yield_after_parse_error',
                                 'the text does not parse but {} example(s) were produced\ntext={!r}'.format(len(exs), text))
@@ -240,12 +245,12 @@ def oracle(text, styles=('freeform', 'google', 'auto'), must_error=None):
     return outcome
 
 
-def guarded_oracle(text, ctx=None, must_error=None):
+def guarded_oracle(text, ctx=None, must_error=None, auto_like_freeform=False):
     """oracle with the watchdog of DESIGN 6.14 (4)"""
     old = signal.signal(signal.SIGALRM, _on_alarm)
     signal.alarm(20)
     try:
-        return oracle(text, must_error=must_error)
+        return oracle(text, must_error=must_error, auto_like_freeform=auto_like_freeform)
     except _Timeout:
         if ctx is not None:
             ctx.notes['slow_cases'] += 1
@@ -305,7 +310,7 @@ def check_case(case, ctx):
         finally:
             signal.alarm(0)
             signal.signal(signal.SIGALRM, old)
-    return guarded_oracle(text, ctx, must_error=case.get('bad'))
+    return guarded_oracle(text, ctx, must_error=case.get('bad'), auto_like_freeform=bool(case.get('flat_header')))
 
 
 # ---------------------------------------------------------------------------
